@@ -4,6 +4,7 @@ import (
 	"time"
 
 	"github.com/plgd-dev/go-coap/v3/pkg/sync"
+	"github.com/plgd-dev/go-coap/v3/pkg/verifhook"
 	"go.uber.org/atomic"
 )
 
@@ -77,6 +78,7 @@ func (c *Cache[K, D]) Load(key K) (actual *Element[D]) {
 func (c *Cache[K, D]) CheckExpirations(now time.Time) {
 	c.Range(func(key K, value *Element[D]) bool {
 		if value.IsExpired(now) {
+			verifhook.Point("cache.CheckExpirations.expired")
 			c.Delete(key)
 			value.onExpire(value.Data())
 		}
